@@ -225,7 +225,7 @@ def check_cache_log(log, maxsize, typed, ttl):
 # ---------------------------------------------------------------------------------------
 
 
-def sequential_differential(maxsize, typed, keys, length, fail_key=None):
+def sequential_differential(maxsize, typed, keys, length, fail_key=None, style="pos"):
     """Every call sequence over ``keys`` of the given length, calls completing at once; compares
     which calls run the wrapped function, and cache_info(), with functools.lru_cache."""
     import anyio
@@ -234,8 +234,11 @@ def sequential_differential(maxsize, typed, keys, length, fail_key=None):
     results = {"sequences": 0, "violations": [], "patterns": set()}
 
     async def main():
-        for seq in itertools.product(range(len(keys)), repeat=length):
-            ks = [keys[i] for i in seq]
+        # alphabet: key x how it is passed (positionally / by keyword)
+        styles = {"pos": ["pos"], "kw": ["kw"], "mixed": ["pos", "kw"]}[style]
+        alpha = [(k, st) for k in keys for st in styles]
+        for seq in itertools.product(range(len(alpha)), repeat=length):
+            ks = [alpha[i] for i in seq]
             ran = []
 
             async def fn(k):
@@ -255,14 +258,14 @@ def sequential_differential(maxsize, typed, keys, length, fail_key=None):
 
             cached = af.lru_cache(maxsize=maxsize, typed=typed)(fn)
             pat = []
-            for k in ks:
+            for k, st in ks:
                 n0, m0 = len(ran), len(ref_ran)
                 try:
-                    a = await cached(k)
+                    a = await (cached(k) if st == "pos" else cached(k=k))
                 except ValueError:
                     a = "err"
                 try:
-                    b = ref(k)
+                    b = ref(k) if st == "pos" else ref(k=k)
                 except ValueError:
                     b = "err"
                 pat.append((len(ran) > n0, len(ref_ran) > m0))
@@ -270,7 +273,7 @@ def sequential_differential(maxsize, typed, keys, length, fail_key=None):
                     results["violations"].append(
                         {"keys": [repr(x) for x in ks], "maxsize": maxsize, "typed": typed,
                          "fail_key": repr(fail_key),
-                         "what": f"call #{len(pat)} ({k!r}): anyio ran the function: "
+                         "what": f"call #{len(pat)} ({k!r} passed {st}): anyio ran the function: "
                                  f"{len(ran) > n0}, functools.lru_cache ran it: {len(ref_ran) > m0}; "
                                  f"values {a!r} vs {b!r}"})
                     break
